@@ -37,9 +37,11 @@ type c05Op struct {
 	inv, res int
 	thread   int
 	// observed
-	gotVal  []byte
-	gotOK   bool
-	gotKeys []string
+	gotVal   []byte
+	gotOK    bool
+	gotKeys  []string
+	gotVals  []byte
+	withVals bool
 }
 
 // c05Action is one atomic step of an operation (a batch commit has one per key).
@@ -118,6 +120,9 @@ func (a *c05Action) apply(m map[string]byte) bool {
 		}
 		for i := range want {
 			if want[i] != o.gotKeys[i] {
+				return false
+			}
+			if o.withVals && m[c05Full(o.onView)+want[i]] != o.gotVals[i] {
 				return false
 			}
 		}
@@ -207,11 +212,21 @@ func c05Run(s kvstore.KVStore, o *c05Op) {
 	case c05Clear:
 		s.Clear()
 	case c05Iterate:
-		s.IterateKeys(kvstore.EmptyPrefix, func(key []byte) bool {
-			o.gotKeys = append(o.gotKeys, string(key))
+		if o.val%2 == 0 {
+			s.IterateKeys(kvstore.EmptyPrefix, func(key []byte) bool {
+				o.gotKeys = append(o.gotKeys, string(key))
 
-			return true
-		})
+				return true
+			})
+		} else {
+			o.withVals = true
+			s.Iterate(kvstore.EmptyPrefix, func(key, value []byte) bool {
+				o.gotKeys = append(o.gotKeys, string(key))
+				o.gotVals = append(o.gotVals, value[0])
+
+				return true
+			})
+		}
 	case c05Batch:
 		b, _ := s.Batched()
 		b.Set(k, []byte{o.val})
@@ -253,7 +268,7 @@ func H_C05_linearizable() {
 	if verifrt.Choose("flush", verifrt.Param("flush", 1)) == 1 {
 		store = flushkv.New(root)
 	}
-	view, _ := store.WithRealm([]byte{1})
+	view, _ := store.WithRealm(append(make([]byte, 0, 8), 1)) // spare capacity: appending to it would alias
 	model := map[string]byte{}
 	// pre-fill: key "\x01\x02" (visible in both views) and optionally "\x02"
 	store.Set([]byte{1, 2}, []byte{90})
@@ -292,4 +307,52 @@ func H_C05_linearizable() {
 	}
 	verifrt.Assert(c05Linearizable(acts, model), "no linearization explains the observed results of the concurrent operations")
 	verifrt.Cover("linearized")
+}
+
+// H_C05_snapshot: an Iterate (with values) running against a goroutine that performs two writes must report a
+// set of entries that existed together at one instant.
+//
+//verif:h prop=C05 preempt=2/3 cover=snapshot runs=30000000 timeout=300/3000 steps=400000
+func H_C05_snapshot() {
+	root := NewMapDB()
+	store := kvstore.KVStore(root)
+	view, _ := store.WithRealm(append(make([]byte, 0, 8), 1))
+	model := map[string]byte{}
+	store.Set([]byte{1, 1}, []byte{90})
+	store.Set([]byte{1, 2}, []byte{91})
+	model[string([]byte{1, 1})] = 90
+	model[string([]byte{1, 2})] = 91
+	reader := &c05Op{kind: c05Iterate, thread: 0, onView: verifrt.Choose("readerOnView", 2) == 1, val: 1}
+	var writes []*c05Op
+	for i := 0; i < 2; i++ {
+		o := &c05Op{thread: 1, onView: true, val: byte(20 + i), key: byte(1 + verifrt.Choose("key", 2))}
+		if verifrt.Choose("delete", 2) == 1 {
+			o.kind = c05Delete
+		} else {
+			o.kind = c05Set
+		}
+		writes = append(writes, o)
+	}
+	var wg sync.WaitGroup
+	wg.Add(2)
+	go func() {
+		defer wg.Done()
+		verifrt.MustFinish()
+		s := store
+		if reader.onView {
+			s = view
+		}
+		c05Run(s, reader)
+	}()
+	go func() {
+		defer wg.Done()
+		verifrt.MustFinish()
+		for _, o := range writes {
+			c05Run(view, o)
+		}
+	}()
+	wg.Wait()
+	acts := []*c05Action{{op: reader}, {op: writes[0]}, {op: writes[1]}}
+	verifrt.Assert(c05Linearizable(acts, model), "Iterate reported entries that never existed together at one instant")
+	verifrt.Cover("snapshot")
 }
